@@ -265,8 +265,8 @@ def rand_elem(rng, depth=0):
     if depth < 2 and k < 0.18:
         n = rng.choice([0, 1, 2, 2, 3])
         return rand_list(rng, n, depth + 1)
-    if depth < 1 and k < 0.22:
-        return rand_map(rng, rng.randint(0, 2))
+    if depth < 1 and k < 0.24:
+        return rand_map(rng, rng.randint(0, 3))
     return rng.choice(ELEMS)
 
 
@@ -316,6 +316,10 @@ def needles_for(v, rng):
         if x[0] == "l" and len(x[1]) >= 2:
             out.append(L(x[1], x[2], not x[3]))
             out.append(L(x[1], "c" if x[2] != "c" else "s", x[3]))
+    # maps as elements: the same map with its entries in another order is `==`
+    for x in items:
+        if x[0] == "m" and len(x[1]) >= 2:
+            out.insert(0, M(tuple(reversed(x[1]))))
     out += [A(17), NULL, L([], "u"), M([])]
     seen, res = set(), []
     for x in out:
